@@ -268,6 +268,11 @@ def step (d : DState) (req : List String) (impl : String) : DState × String :=
   | _ =>
   if d.over then (d, "SPECFAIL harness: a call after zprobe (the state is outside the property's domain)") else
   match req with
+  | "law" :: _ =>
+    -- a LAW the harness checked against the implementation itself (iterator contracts of every iterator of
+    -- the matrix, `clone_from ≡ clone`, `Default ≡ new ≡ with_capacity(0)`, `Debug` never panics, trait /
+    -- adaptor views describe the same graph, `Visitable`): the only acceptable answer is `ok`
+    (d, verdict (if impl == "ok" then none else some s!"law violated [{String.intercalate " " req}]: {impl}") "ok" impl)
   | ["row", x] => rowStep d x impl
   | ["new", ctor] =>
     if ctor == "default" || ctor == "new" || ctor == "new_undirected" then
